@@ -3,7 +3,8 @@
    over UTF-16 units) *)
 From Coq Require Import ZArith Bool List.
 From Otto Require Import Common.Corr Common.Double C09.Utf C09.Model.
-From Otto Require Export C09.Spec.
+From Otto Require Import C09.ModelObj.
+From Otto Require Export C09.Spec C09.SpecObj.
 Import ListNotations.
 Open Scope Z_scope.
 
@@ -18,7 +19,11 @@ Inductive case :=
 | CEffect (steps : list (option meth * erecv * list earg)) (obs : list (res * list Z))
     (* a history on one runtime of calls whose receiver / arguments are objects with logging,
        possibly throwing toString / valueOf; per step: result (8 = it threw) and conversion log *)
-| CPatched (x : str) (m : meth) (r : recv) (args : list arg) (obs : res).
+| CPatched (x : str) (m : meth) (r : recv) (args : list arg) (obs : res)
+| CProps (u : str) (ops : list oop) (obs : list res).
+    (* var s = new String(u); then a history of index-property operations on s, String.prototype
+       and Object.prototype (assignment, defineProperty, delete) and reads (s[k], u[k], in,
+       hasOwnProperty, getOwnPropertyDescriptor, keys, getOwnPropertyNames, method calls) *)
     (* String.prototype.toString = function(){ return x }; then this.m(args) *)
     (* var s = u; then for each op: r = s.m(args); observe r; if r is a string, s = r *)
 
@@ -44,7 +49,9 @@ Definition res_eqb (a b : res) : bool :=
    8 (fixed 4b90749, no longer produced) "01", "+1", "-0" accepted as index names
    9 argument conversions out of the ES5 step order: skipped (split with limit 0, lastIndexOf on
      the empty string) or reordered (charAt / charCodeAt convert the position before this)
-   10 a replaced String.prototype.toString is applied to primitive string receivers *)
+   10 a replaced String.prototype.toString is applied to primitive string receivers
+   11 Object.defineProperty on an index below the length of a String object is accepted and the
+      new property hides the code unit (15.5.5.2 + 8.12.9: TypeError unless nothing changes) *)
 Definition has_lone (u : str) : bool := negb (zlist_eqb (enc16 (dec16 u)) u).
 Definition arg_lone (a : arg) : bool := match a with AStr u => has_lone u | _ => false end.
 Definition has_fffd (u : str) : bool := existsb (Z.eqb 0xFFFD) u.
@@ -155,6 +162,22 @@ Definition patch_model (m : meth) (r : recv) (x : str) : recv :=
 Definition patch_spec (r : recv) (x : str) : recv :=
   match r with RStrObj _ => RStrObj x | _ => r end.
 
+(* ---------- index properties of String objects ---------- *)
+Definition model_obj (u : str) := step_obj define_model own_keys_model call_model u.
+Definition spec_obj (u : str) := step_obj define_spec own_keys call_spec u.
+(* class of a property history: that of a deviating method call if there is one, else 11
+   (defineProperty on an index below the length is accepted and hides the code unit) *)
+Fixpoint props_class (u : str) (ops : list oop) : Z :=
+  match ops with
+  | [] => 11
+  | OCall m a :: ops' =>
+      match call_model m (RStrObj u) a, call_spec m (RStrObj u) a with
+      | Some x, Some y => if res_eqb x y then props_class u ops' else classify m (RStrObj u) a
+      | _, _ => props_class u ops'
+      end
+  | _ :: ops' => props_class u ops'
+  end.
+
 Definition triple_eqb (a b : Z * Z * Z) : bool :=
   let '(a1, a2, a3) := a in let '(b1, b2, b3) := b in (a1 =? b1) && (a2 =? b2) && (a3 =? b3).
 
@@ -179,6 +202,11 @@ Definition verdict (c : case) : Z * Z :=
   | CEffect steps obs =>
       match all_steps model_step steps, all_steps spec_step steps with
       | Some mo, Some sp => judge (list_eqb step_eqb) obs mo sp (effect_class steps)
+      | _, _ => declined
+      end
+  | CProps u ops obs =>
+      match run_obj (model_obj u) empty_state ops, run_obj (spec_obj u) empty_state ops with
+      | Some mo, Some sp => judge (list_eqb res_eqb) obs mo sp (props_class u ops)
       | _, _ => declined
       end
   | CPatched x m r args obs =>
